@@ -584,6 +584,75 @@ class Seams:
         self._import_state = dict(
             scputimes=psutil._pslinux.scputimes,
         )
+        self._snapshot_pristine()
+
+    # -- generic part of reset_psutil(): whatever module-level data or mutable default argument the code under test keeps
+    #    memory in -- including state a *changed* tree introduces -- is put back to what it was right after import, so that an
+    #    execution depends on its own history only (explorer H re-builds every state from scratch in a long-lived worker)
+    _DATA = (type(None), bool, int, float)
+
+    def _snapshot_pristine(self):
+        import copy
+        import types
+        self._pristine, self._pristine_names, self._pristine_defaults = [], {}, []
+        seen = set()
+        for m in self.mods:
+            self._pristine_names[m.__name__] = set(vars(m))
+            for k, v in list(vars(m).items()):
+                if k.startswith("__"):
+                    continue
+                if isinstance(v, (dict, list, set)):
+                    try:
+                        self._pristine.append((m, k, copy.deepcopy(v), True))
+                    except Exception:  # noqa: BLE001
+                        pass
+                elif isinstance(v, self._DATA):
+                    self._pristine.append((m, k, v, False))
+            fns = []
+            for v in list(vars(m).values()):
+                if isinstance(v, types.FunctionType):
+                    fns.append(v)
+                elif isinstance(v, type) and v.__module__ == m.__name__:
+                    for a in list(vars(v).values()):
+                        a = getattr(a, "__func__", a)
+                        if isinstance(a, types.FunctionType):
+                            fns.append(a)
+            for f in fns:
+                while f is not None and id(f) not in seen:
+                    seen.add(id(f))
+                    d = f.__defaults__
+                    if d and any(isinstance(x, (dict, list, set)) for x in d):
+                        try:
+                            self._pristine_defaults.append((f, copy.deepcopy(d)))
+                        except Exception:  # noqa: BLE001
+                            pass
+                    f = getattr(f, "__wrapped__", None)
+
+    def _restore_pristine(self):
+        import copy
+        for m, k, v, container in self._pristine:
+            g = m.__dict__
+            cur = g.get(k, _MISSING)
+            if not container:
+                if cur is not v and (type(cur) is not type(v) or cur != v):
+                    g[k] = v
+            elif type(cur) is type(v):
+                if cur != v:
+                    fresh = copy.deepcopy(v)
+                    if isinstance(cur, list):
+                        cur[:] = fresh
+                    else:
+                        cur.clear()
+                        cur.update(fresh)
+            else:
+                g[k] = copy.deepcopy(v)
+        for m in self.mods:
+            known = self._pristine_names[m.__name__]
+            for k in [k for k, v in vars(m).items() if k not in known and (isinstance(v, self._DATA) or isinstance(v, (dict, list, set)))]:
+                delattr(m, k)
+        for f, d in self._pristine_defaults:
+            if f.__defaults__ != d:
+                f.__defaults__ = copy.deepcopy(d)
 
     def _set(self, mod, name, value):
         key = (mod.__name__, name)
@@ -649,6 +718,7 @@ class Seams:
         """Restore every module-level mutable of psutil to its just-imported
         (but empty) state."""
         ps = self.psutil
+        self._restore_pristine()
         ps._pmap = {}
         ps._pids_reused.clear()
         ps._LOWEST_PID = None
